@@ -207,6 +207,19 @@ class Engine:
 
         if unknown:
             text, f = unknown[0]
+            if f.extra.get("engine"):
+                import special
+                mini = getattr(special, "minimise_" + f.extra["engine"], None)
+                if mini and text:
+                    try:
+                        text, f = mini(self, text, f)
+                    except Exception as e:
+                        self.notes.append("shrink failed: %r" % e)
+                p = self.write_replay("special", text, f, extra={"engine": f.extra["engine"]})
+                print("failing input (%d unlisted failures; first, minimised): %s" % (len(unknown), f.msg[:600]))
+                print("VIOLATION property=%s replay=%s" % (self.pid, p))
+                self.violations = len(unknown)
+                return 1
             if text:
                 text, f = self.minimise(text, f, go_bin)
             p = self.write_replay("oracle", text, f)
@@ -271,6 +284,7 @@ class Engine:
         self.go_bin = go_bin
         if d["kind"] == "special":
             import special
+            d["path"] = path
             return special.replay(self, d)
         if d["kind"] == "proof":
             pr = ck.proofs(self.pid)
